@@ -37,7 +37,7 @@ fn configs(tier: Tier, seed: u64) -> Vec<Cfg> {
     let mut v = Vec::new();
     let sizes = [0usize, 1, 2, 3, 5, 8, 17, 64, 257, 1000];
     for &size in &sizes {
-        let modes: &[u8] = if size <= 64 { &[0, 1, 2, 3] } else { &[0, 1, 2] };
+        let modes: &[u8] = if size <= 64 { &[0, 1, 2, 3, 4] } else { &[0, 1, 2, 4] };
         for &delay_mode in modes {
             let mut variants: Vec<(bool, usize)> = vec![(false, 1)];
             for pool in [1usize, 2, 3, 4, 8, 16] {
@@ -64,7 +64,7 @@ fn pop_kind_name(kind: u8) -> &'static str {
 }
 
 fn cfg_json(c: &Cfg) -> Value {
-    let delay = ["none", "yield_now", "spin", "sleep 0-200us"][c.delay_mode as usize];
+    let delay = ["none", "yield_now", "spin", "sleep 0-200us", "re-enters the rayon pool (yield_now + nested join)"][c.delay_mode as usize];
     json!({"population_size": c.size, "stepping": if c.parallel { format!("par_next on a rayon pool of {}", c.pool) } else { "serial_next".to_string() },
            "population_type": pop_kind_name(c.kind), "injected_delay": delay,
            "fail_at_calls": c.fail, "generations": c.steps})
@@ -222,6 +222,7 @@ pub fn main() -> i32 {
         return 2;
     }
     let cfgs = configs(args.tier, args.seed);
+    crate::start_stall_detector(args.root.clone());
     let reps = args.tier.pick(1u64, 6u64);
     // configurations run on a few harness threads at once: par_next configurations bring
     // their own rayon pools, so the machine is deliberately oversubscribed
